@@ -2,19 +2,40 @@ package maven
 
 import (
 	"fmt"
-	"strconv"
 	"strings"
 	"unicode"
 )
 
 type Version struct {
 	original string
-	elements []element
+	items    *listItem
 }
 
-type element struct {
-	value    interface{} // string or int
-	isNumber bool
+// item is one element of a parsed version, as in Maven's ComparableVersion:
+// a number, a qualifier or a nested list of items.
+type item interface {
+	// compare compares the item with another one; other is nil when the
+	// other version has no item at this position.
+	compare(other item) int
+	// isNull reports whether the item is equivalent to nothing (0, "", an
+	// empty list) and can be trimmed at the end of a list.
+	isNull() bool
+}
+
+// intItem is a number of any length, stored without leading zeros ("" is 0).
+type intItem struct {
+	digits string
+}
+
+// stringItem is a qualifier, already lower-cased and with aliases resolved.
+type stringItem struct {
+	value string
+}
+
+// listItem is a sequence of items. A hyphen, a transition between digits and
+// letters and a trailing qualifier open a nested list.
+type listItem struct {
+	items []item
 }
 
 func (e *Ecosystem) NewVersion(version string) (*Version, error) {
@@ -33,11 +54,9 @@ func (e *Ecosystem) NewVersion(version string) (*Version, error) {
 		return nil, fmt.Errorf("invalid Maven version format: %s", trimmed)
 	}
 
-	elements := parseVersionString(trimmed)
-
 	return &Version{
 		original: version,
-		elements: elements,
+		items:    parseVersionString(trimmed),
 	}, nil
 }
 
@@ -72,112 +91,123 @@ func isValidMavenVersion(version string) bool {
 }
 
 func (v *Version) Compare(other *Version) int {
-	// Compare elements one by one
-	maxLen := len(v.elements)
-	if len(other.elements) > maxLen {
-		maxLen = len(other.elements)
-	}
-
-	for i := 0; i < maxLen; i++ {
-		var elem1, elem2 element
-
-		// Get element or use "null" element if past end
-		if i < len(v.elements) {
-			elem1 = v.elements[i]
-		} else {
-			elem1 = element{value: 0, isNumber: true} // null element
-		}
-
-		if i < len(other.elements) {
-			elem2 = other.elements[i]
-		} else {
-			elem2 = element{value: 0, isNumber: true} // null element
-		}
-
-		cmp := compareElements(elem1, elem2)
-		if cmp != 0 {
-			return cmp
-		}
-	}
-
-	return 0 // versions are equal
+	return v.items.compare(other.items)
 }
 
-func compareElements(e1, e2 element) int {
-	// If both are numbers, compare numerically
-	if e1.isNumber && e2.isNumber {
-		n1 := e1.value.(int)
-		n2 := e2.value.(int)
-		if n1 < n2 {
-			return -1
+func (i intItem) isNull() bool {
+	return i.digits == ""
+}
+
+func (i intItem) compare(other item) int {
+	switch o := other.(type) {
+	case nil:
+		if i.digits == "" {
+			return 0 // 1.0 == 1
 		}
-		if n1 > n2 {
-			return 1
+		return 1 // 1.1 > 1
+	case intItem:
+		if len(i.digits) != len(o.digits) {
+			return compareInt(len(i.digits), len(o.digits))
+		}
+		return strings.Compare(i.digits, o.digits)
+	case stringItem:
+		return 1 // 1.1 > 1-sp
+	default:
+		return 1 // 1.1 > 1-1
+	}
+}
+
+func (s stringItem) isNull() bool {
+	return s.value == ""
+}
+
+func (s stringItem) compare(other item) int {
+	switch o := other.(type) {
+	case nil:
+		// 1-rc < 1, 1-ga == 1, 1-sp > 1, 1-foo > 1
+		return compareQualifiers(s.value, "")
+	case stringItem:
+		return compareQualifiers(s.value, o.value)
+	default:
+		return -1 // 1.any < 1.1 and 1.any < 1-1
+	}
+}
+
+func (l *listItem) isNull() bool {
+	return len(l.items) == 0
+}
+
+func (l *listItem) compare(other item) int {
+	switch o := other.(type) {
+	case nil:
+		// 1-0 == 1; otherwise the first item that differs from nothing decides
+		for _, it := range l.items {
+			if cmp := it.compare(nil); cmp != 0 {
+				return cmp
+			}
+		}
+		return 0
+	case intItem:
+		return -1 // 1-1 < 1.0.x
+	case stringItem:
+		return 1 // 1-1 > 1-sp
+	case *listItem:
+		for i := 0; i < len(l.items) || i < len(o.items); i++ {
+			var cmp int
+			switch {
+			case i >= len(l.items):
+				cmp = -o.items[i].compare(nil)
+			case i >= len(o.items):
+				cmp = l.items[i].compare(nil)
+			default:
+				cmp = l.items[i].compare(o.items[i])
+			}
+			if cmp != 0 {
+				return cmp
+			}
 		}
 		return 0
 	}
+	return 0
+}
 
-	// If one is number and other is string, number comes first (unless string is empty/release)
-	if e1.isNumber && !e2.isNumber {
-		s2 := e2.value.(string)
-		if s2 == "" {
-			// number vs empty string: empty string (release) is greater
-			return -1
+// normalize removes trailing null items (0, "", empty lists), also those
+// that are only followed by nested lists: 1.0-alpha == 1-alpha.
+func (l *listItem) normalize() {
+	for i := len(l.items) - 1; i >= 0; i-- {
+		last := l.items[i]
+		if last.isNull() {
+			l.items = append(l.items[:i], l.items[i+1:]...)
+		} else if _, isList := last.(*listItem); !isList {
+			break
 		}
-		if s2 == "sp" {
-			// number vs sp: sp is greater
-			return -1
-		}
-		// number vs other qualifier: number is greater
-		return 1
 	}
+}
 
-	if !e1.isNumber && e2.isNumber {
-		s1 := e1.value.(string)
-		if s1 == "" {
-			// empty string (release) vs number: empty string is greater
-			return 1
-		}
-		if s1 == "sp" {
-			// sp vs number: sp is greater
-			return 1
-		}
-		// other qualifier vs number: number is greater
-		return -1
-	}
-
-	// Both are strings - compare by qualifier order
-	s1 := e1.value.(string)
-	s2 := e2.value.(string)
-
+// compareQualifiers orders two qualifiers: known qualifiers by their
+// precedence, unknown ones after all known ones and among themselves
+// lexically.
+func compareQualifiers(s1, s2 string) int {
 	order1, exists1 := qualifierOrder[s1]
 	order2, exists2 := qualifierOrder[s2]
 
-	// Unknown qualifiers come after known qualifiers
 	if !exists1 && !exists2 {
-		// Both unknown - lexicographic comparison
-		if s1 < s2 {
-			return -1
-		}
-		if s1 > s2 {
-			return 1
-		}
-		return 0
+		return strings.Compare(s1, s2)
 	}
-
 	if !exists1 {
 		return 1 // unknown qualifier comes after known
 	}
-
 	if !exists2 {
 		return -1 // known qualifier comes before unknown
 	}
+	return compareInt(order1, order2)
+}
 
-	// Both are known qualifiers
-	if order1 < order2 {
+func compareInt(a, b int) int {
+	if a < b {
 		return -1
 	}
-	if order1 > order2 {
+	if a > b {
 		return 1
 	}
 	return 0
@@ -190,84 +220,88 @@ func (v *Version) String() string {
 // qualifierOrder defines the precedence of Maven qualifiers
 var qualifierOrder = map[string]int{
 	"alpha":     1,
-	"a":         1,
 	"beta":      2,
-	"b":         2,
 	"milestone": 3,
-	"m":         3,
 	"rc":        4,
-	"cr":        4,
 	"snapshot":  5,
 	"":          6, // release version (no qualifier)
-	"ga":        6,
-	"final":     6,
-	"release":   6,
 	"sp":        7,
 }
 
-func parseVersionString(version string) []element {
-	var elements []element
+// parseVersionString parses a version the way Maven's ComparableVersion
+// does. Items are separated by '.' and '-' and by transitions between
+// digits and letters. A '-', such a transition and a qualifier that ends the
+// version or is directly followed by a digit start a nested list, which is
+// what makes 1-1 < 1.0.1 < 1.1 and 1.0-rc1 == 1.0.rc1 == 1.0-rc-1.
+func parseVersionString(version string) *listItem {
+	version = strings.ToLower(version)
 
-	// Split by common separators and transitions
-	parts := tokenize(version)
-
-	for _, part := range parts {
-		if part == "" {
-			continue
-		}
-
-		// Normalize qualifiers
-		normalized := normalizeQualifier(part)
-
-		// Try to parse as number
-		if num, err := strconv.Atoi(normalized); err == nil {
-			elements = append(elements, element{value: num, isNumber: true})
-		} else {
-			elements = append(elements, element{value: normalized, isNumber: false})
-		}
+	root := &listItem{}
+	list := root
+	stack := []*listItem{root}
+	push := func() {
+		nested := &listItem{}
+		list.items = append(list.items, nested)
+		list = nested
+		stack = append(stack, nested)
 	}
 
-	// Trim trailing null elements (0, "", "final", "ga")
-	elements = trimTrailingNulls(elements)
+	isDigit := false
+	start := 0
+	for i := 0; i < len(version); i++ {
+		c := version[i]
+		switch {
+		case c == '.' || c == '-':
+			if i == start {
+				list.items = append(list.items, intItem{})
+			} else {
+				list.items = append(list.items, parseItem(isDigit, version[start:i]))
+			}
+			start = i + 1
+			if c == '-' {
+				push()
+			}
+		case c >= '0' && c <= '9':
+			if !isDigit && i > start {
+				// a qualifier directly followed by a number: .rc1 is -rc-1
+				if len(list.items) > 0 {
+					push()
+				}
+				list.items = append(list.items, parseItem(false, version[start:i]))
+				start = i
+				push()
+			}
+			isDigit = true
+		default:
+			if isDigit && i > start {
+				list.items = append(list.items, parseItem(true, version[start:i]))
+				start = i
+				push()
+			}
+			isDigit = false
+		}
+	}
+	if len(version) > start {
+		// a trailing qualifier: .final is -final
+		if !isDigit && len(list.items) > 0 {
+			push()
+		}
+		list.items = append(list.items, parseItem(isDigit, version[start:]))
+	}
 
-	return elements
+	// Trim trailing null items (0, "", "final", "ga") of every list
+	for i := len(stack) - 1; i >= 0; i-- {
+		stack[i].normalize()
+	}
+
+	return root
 }
 
-func tokenize(version string) []string {
-	var tokens []string
-	var current strings.Builder
-
-	for i, r := range version {
-		switch {
-		case r == '.' || r == '-':
-			// Add current token if not empty
-			if current.Len() > 0 {
-				tokens = append(tokens, current.String())
-				current.Reset()
-			}
-		case i > 0:
-			prev := rune(version[i-1])
-			// Check for transitions between digits and letters
-			if (unicode.IsDigit(prev) && unicode.IsLetter(r)) ||
-				(unicode.IsLetter(prev) && unicode.IsDigit(r)) {
-				// Add current token and start new one
-				if current.Len() > 0 {
-					tokens = append(tokens, current.String())
-					current.Reset()
-				}
-			}
-			current.WriteRune(r)
-		default:
-			current.WriteRune(r)
-		}
+func parseItem(isDigit bool, s string) item {
+	if isDigit {
+		return intItem{digits: strings.TrimLeft(s, "0")}
 	}
-
-	// Add final token
-	if current.Len() > 0 {
-		tokens = append(tokens, current.String())
-	}
-
-	return tokens
+	return stringItem{value: normalizeQualifier(s)}
 }
 
 func normalizeQualifier(s string) string {
@@ -288,25 +322,4 @@ func normalizeQualifier(s string) string {
 	}
 
 	return lower
-}
-
-func trimTrailingNulls(elements []element) []element {
-	// Remove trailing elements that are equivalent to "null"
-	for len(elements) > 0 {
-		last := elements[len(elements)-1]
-		if isNullElement(last) {
-			elements = elements[:len(elements)-1]
-		} else {
-			break
-		}
-	}
-	return elements
-}
-
-func isNullElement(e element) bool {
-	if e.isNumber {
-		return e.value.(int) == 0
-	}
-	str := e.value.(string)
-	return str == "" || str == "final" || str == "ga" || str == "release"
 }
